@@ -5,8 +5,8 @@
    back.  The other indicators are decided by the bit-exact engine correspondence and the
    reference falsifier. *)
 From Coq Require Import ZArith List String Bool Reals.
-From Hexital Require Import Base.Prelude Base.Num Model.Candle Inst.RealInst Spec.Steppers
-  Proofs.SpecGeneric Proofs.SpecReal Proofs.SpecMore.
+From Hexital Require Import Base.Prelude Base.Num Model.Candle Model.Manager Model.Readings Model.Engine Proofs.StructMore.
+From Hexital Require Import Inst.RealInst Spec.Steppers Proofs.SpecGeneric Proofs.SpecReal Proofs.SpecMore.
 Import ListNotations.
 Local Open Scope R_scope.
 
@@ -57,3 +57,13 @@ Theorem C06_roc_definition :
   exists s', roc_step ROps p nd s x = Ok (@VNum ROps (rnd10 nd ((x - nb) / nb * 100)), s').
 Proof. exact roc_definition. Qed.
 Print Assumptions C06_roc_definition.
+
+(* MACD line = fast EMA - slow EMA of the same candle (engine model) *)
+Theorem C06_macd_line :
+  forall (I : ind ROps) rec (fast slow signal : Z) (input : string) (st st' : store ROps) i v (fn sn : R),
+  i_kind ROps I = K_MACD fast slow signal input -> calc_reading ROps rec I st i = Ok (v, st') ->
+  reading ROps st (String.append (i_name ROps I) "_EMA_slow") i = Ok (@VNum ROps sn) ->
+  reading ROps st (String.append (i_name ROps I) "_EMA_fast") i = Ok (@VNum ROps fn) ->
+  exists sg hist, v = VDict [("MACD"%string, @VNum ROps (fn - sn)); ("signal"%string, sg); ("histogram"%string, hist)].
+Proof. exact macd_line. Qed.
+Print Assumptions C06_macd_line.
